@@ -761,7 +761,7 @@ impl<'a> Parser<'a> {
         fraction: f64,
         unit_seconds: f64,
     ) -> Result<(), ParseError> {
-        let micros = (fraction * unit_seconds * 1_000_000.0).round() as u64;
+        let micros = (fraction * unit_seconds * 1_000_000.0).round_ties_even() as u64;
         let seconds = micros / 1_000_000;
 
         duration.days = Self::checked_sum(duration.days, seconds / 86_400)?;
